@@ -9,6 +9,7 @@ Used to provide a common interface and fast calculations with numpy.
 __author__ = "Michael Teresi, Scott Teresi"
 
 import logging
+import os
 import numpy as np
 import pandas as pd
 
@@ -109,7 +110,11 @@ class GeneData(object):
 
         """
         # Begin refactor
-        self.data_frame.to_csv(filename, sep="\t", header=True, index=True)
+        # NB write under a temporary name and rename, the cache is reused by
+        # later runs if it exists
+        tmp_filename = filename + ".tmp"
+        self.data_frame.to_csv(tmp_filename, sep="\t", header=True, index=True)
+        os.replace(tmp_filename, filename)
 
     @classmethod
     def read(cls, filename):
